@@ -5,7 +5,7 @@ SeqsUpTo(S, m) == UNION {[1..k -> S] : k \in 1..m}
 \* arrangement each (the others are in the thorough scope and in the harness' own enumeration)
 LawDimsQuick    == {d \in SeqsUpTo({1, 2, 3}, 2) : IProd(d) <= 6} \cup
                    {<<1, 1, 2>>, <<1, 2, 1>>, <<2, 1, 1>>, <<1, 2, 2>>, <<2, 1, 2>>, <<2, 2, 1>>, <<2, 2, 2>>,
-                    <<1, 2, 3>>, <<3, 1, 2>>, <<2, 3, 1>>}
+                    <<1, 2, 3>>, <<3, 1, 2>>}
 LawDimsThorough == {d \in SeqsUpTo({1, 2, 3}, 3) : IProd(d) <= 18} \cup {<<2, 2, 1, 2>>, <<2, 1, 2, 3>>, <<4, 3>>}
 Seeds1 == {0}
 Seeds2 == {0, 1}
